@@ -254,9 +254,22 @@ def gen_value_types_rs(edef, unary, binary, kinds):
         arms.append('            "%s" => { let p = &mut *self; %s ValueType::%s { %s } }' % (vname, ' '.join(seq), vname, ctor))
     arms_c = [a.replace('Id(p.num() as u16)', 'cid(p.num() as u32)').replace('p.optid()', 'p.optid().map(|i| cid(i.0 as u32))')
               .replace('Box::new(p.ty())', 'Box::new(p.cty())') for a in arms]
+    # printer for ValueType<common::Identifier> in the same wire format
+    warms = []
+    for vname, d, fields in edef.variants:
+        ks = kinds[vname]
+        if not ks:
+            warms.append('        ValueType::%s => "%s".to_string(),' % (vname, vname))
+            continue
+        pat = ', '.join('%s: f%d' % (fname, i) for i, (fname, ft) in enumerate(fields))
+        parts = []
+        for i, k in enumerate(ks):
+            parts.append({'box': 'cwire(f%d)' % i, 'usize': 'format!("{}", f%d)' % i, 'id': 'format!("{}", f%d.resolution_id)' % i,
+                          'optid': 'match f%d { Some(x) => format!("{}", x.resolution_id), None => "none".to_string() }' % i}[k])
+        warms.append('        ValueType::%s { %s } => format!("%s({})", [%s].join(",")),' % (vname, pat, vname, ', '.join(parts)))
     un = '\n'.join('            "%s" => show(a.%s()),' % (f, f) for f in unary)
     bi = '\n'.join('            "%s" => show(a.%s(&b.clone().unwrap())),' % (f, f) for f in binary)
-    return RS_TEMPLATE.replace('@ARMS@', '\n'.join(arms)).replace('@ARMSC@', '\n'.join(arms_c)).replace('@UNARY@', un).replace('@BINARY@', bi)
+    return RS_TEMPLATE.replace('@ARMS@', '\n'.join(arms)).replace('@ARMSC@', '\n'.join(arms_c)).replace('@WIREARMS@', '\n'.join(warms)).replace('@UNARY@', un).replace('@BINARY@', bi)
 
 
 RS_TEMPLATE = r'''// generated: parses wire-format types and evaluates the public ValueType API natively
@@ -379,6 +392,50 @@ pub fn run_lint() {
         let lints: Vec<penne::alpha::linter::Lint> = linter.into();
         let codes: Vec<u16> = lints.iter().map(|l| l.code()).collect();
         println!("{:?}", codes);
+    }
+}
+
+fn cwire(t: &CVT) -> String {
+    use penne::alpha::value_type::ValueType;
+    match t {
+@WIREARMS@
+    }
+}
+
+pub fn run_typer() {
+    use penne::alpha::typer::verif_hooks as h;
+    use penne::alpha::error::Error;
+    let stdin = std::io::stdin();
+    for line in stdin.lock().lines() {
+        let line = line.unwrap();
+        let w: Vec<String> = line.split(' ').filter(|x| !x.is_empty()).map(|x| x.to_string()).collect();
+        let r = std::panic::catch_unwind(move || match w[0].as_str() {
+            // fix <context 0..3> <extern 0|1> <type>
+            "fix" => {
+                let ty = P { s: w[3].as_bytes(), i: 0 }.cty();
+                match h::fix_type_for_flags(ty, w[1].parse().unwrap(), w[2] == "1") {
+                    Ok(t) => format!("ok {}", cwire(&t)),
+                    Err(e) => format!("err{}", e.code()),
+                }
+            }
+            // align <structural type> <member type>*
+            "align" => {
+                let st = P { s: w[1].as_bytes(), i: 0 }.cty();
+                let ms: Vec<CVT> = w[2..].iter().map(|x| P { s: x.as_bytes(), i: 0 }.cty()).collect();
+                match h::align_struct(ms, st) {
+                    Ok(t) => format!("ok {}", cwire(&t)),
+                    Err(Some(Error::WordSizeMismatch { inferred_size_in_bits, declared_size_in_bits, .. })) =>
+                        format!("err380:{}:{}", inferred_size_in_bits, declared_size_in_bits),
+                    Err(Some(e)) => format!("err{}", e.code()),
+                    Err(None) => "poisoned".to_string(),
+                }
+            }
+            o => panic!("unknown request {o}"),
+        });
+        match r {
+            Ok(s) => println!("{}", s),
+            Err(_) => println!("PANIC"),
+        }
     }
 }
 
